@@ -53,6 +53,12 @@ func c16Body(c *sim.Ctx, first byte) *ref.AP {
 		a = gen.Packet(t, cfg)
 	}
 	a.Flags = fl
+	if typ == ref.Connect && t.Bool(1, 4) {
+		// a CONNECT that announces an earlier protocol version: the library takes any
+		// name and level; whatever it makes of the body, a CONNECT stays a CONNECT
+		pv := gen.LegacyProtocols[t.Int(len(gen.LegacyProtocols))]
+		a.ProtoName, a.ProtoVer = []byte(pv.Name), pv.Ver
+	}
 	if typ == ref.Publish && (a.QoS() == 1 || a.QoS() == 2) && a.PacketID == 0 {
 		a.PacketID = 1 + uint16(t.Int(65535))
 	}
@@ -285,6 +291,10 @@ func runC16(c *sim.Ctx) *sim.Violation {
 		a := c16Body(c, first)
 		frame, fm := ref.Encode(a)
 		damaged := false
+		if a.Type == ref.Connect && (string(a.ProtoName) != "MQTT" || a.ProtoVer != 5) {
+			damaged = true // acceptance is not demanded; dispatch is, if it is accepted
+			c.Count("probe.CONNECT-announcing-an-earlier-protocol-version")
+		}
 		if first>>4 != 0 && c.T.Bool(1, 3) {
 			// a body that is not valid but may still be accepted (reserved bits set,
 			// flipped bytes): whenever decoding succeeds, type and flags must hold
